@@ -336,6 +336,7 @@ def main():
     undecided, violations, known_hits = [], [], []
     notes = []
     lost_hint_fns = set()
+    skip_canary = set()
     functions, trusted, samples, cmds = [], set(), [], []
     obligations = discharged = 0
     bounded = []
@@ -353,6 +354,7 @@ def main():
             # the prover cannot decide (lost anchor / unsupported construct / rlimit): fall back to the witness finder on the real code
             wf = cfg.get("witness")
             w = run_witness(wf, pid, {"fn": ""}, None) if wf else None
+            skip_canary.add(unit)
             if w and w.get("found"):
                 violations.append(("witness-fallback", unit, {"fn": "witness:" + unit, "kind": "witness", "clause": w["input"][:300], "text": "prover undecided: " + r["reason"][:1500], "witness": w}))
             else:
@@ -428,6 +430,7 @@ def main():
     if cfg.get("units") and not undecided and (tier == "thorough" or cfg.get("canary_quick", True)):
         canary_info = []
         for unit in cfg["units"]:
+            if unit in skip_canary: continue
             rc = run_unit(unit, variant="canary", tag="_canary")
             if rc["status"] == "undecided":
                 undecided.append(f"canary {unit}: {rc['reason'][:500]}"); continue
@@ -505,7 +508,7 @@ def main():
             undecided.append("native stand-in timed out"); continue
         cmds.append(cmd)
         mm = re.search(r"ENUM-OK cases=(\d+)", out)
-        mw = re.search(r"WITNESS (.*)", out)
+        mw = re.search(r"WITNESS (.*)", out) or (re.search(r"(panicked at [^\n]*\n[^\n]*)", out) if "test result: FAILED" in out else None)
         if mm:
             bounded.append({"harness": nc["name"], "bound": nc.get("bound", ""), "cases": int(mm.group(1)), "status": "SUCCESSFUL"})
         elif mw:
@@ -599,6 +602,10 @@ def run_witness(wf, pid, f, path):
         m = re.search(r"WITNESS (.*)", out)
         if m:
             return {"found": True, "input": m.group(1), "how": cmd, "bound": wf.get("bound"), "output_tail": out[-1500:]}
+        # the real code panicked while the finder was driving it: that execution is the witness
+        m = re.search(r"panicked at ([^\n]*)\n([^\n]*)", out)
+        if m and "test result: FAILED" in out:
+            return {"found": True, "input": "panic in the real code: " + m.group(1) + " " + m.group(2), "how": cmd, "bound": wf.get("bound"), "output_tail": out[-1500:]}
         return {"found": False, "how": cmd, "bound": wf.get("bound"), "output_tail": out[-800:]}
     except Exception as e:
         return {"found": False, "error": str(e)}
